@@ -66,6 +66,12 @@ fn init_tracing_for_testing() -> ::tracing::dispatcher::DefaultGuard {
     ::tracing::subscriber::set_default(subscriber)
 }
 
-#[cfg(feature = "verif-hooks")]
+#[cfg(any(
+    feature = "verif-hooks-wire",
+    feature = "verif-hooks-cm",
+    feature = "verif-hooks-crypto",
+    feature = "verif-hooks-conn",
+    feature = "verif-hooks-timeout"
+))]
 #[doc(hidden)]
 pub mod verif_hooks;
